@@ -13,9 +13,9 @@ What is proved
      operations (since fix d4da6a2 Policy.blockAccount/unblockAccount mark the committee outdated; before it
      the witness history below made a restarted replica diverge — it is kept as regression example:
      neo_restart_regression_witness shows the two replicas now agree).
-  3b. whitelist_cache_not_coherent_witness / whitelist_cache_coherent_partial — the whitelisted-fee list of Policy
-     (separate component, Model/Ledger/Whitelist.lean) is NOT restart-transparent as written: re-setting the fee of
-     an already whitelisted method leaves the cache stale (known finding policy-whitelist-fee-update-restart).
+  3b. whitelist_cache_coherent / whitelist_restart_invisible — the whitelisted-fee list of Policy (separate
+     component, Model/Ledger/Whitelist.lean) is restart-transparent for all operation sequences (since fix cb24446
+     a re-set overwrites the cached entry; whitelist_restart_regression_witness is the history that diverged before).
   4. map_ranges_classified — every iteration over a Go map found by the extractor in the consensus-critical
      packages is classified (regenerated table, `decide`).
 -/
@@ -196,22 +196,31 @@ end Natives
 
 namespace Whitelist
 
-/-- (C01 is violated by the code as written) Set the fee of method (contract 1, method 0) to 0, then to 5000000:
-    the running node keeps charging 0 (cache) while storage — hence any node restarted afterwards — says 5000000. -/
-theorem whitelist_cache_not_coherent_witness :
-    chargedFee (run empty [.set (1, 0) 0, .set (1, 0) 5000000]) (1, 0) = some 0 ∧
+/-- (regression witness, fix cb24446) Set the fee of method (contract 1, method 0) to 0, then to 5000000: the running
+    node charges 5000000 (cache), storage says 5000000, and so does a node restarted afterwards — before the fix
+    the cache kept 0. -/
+theorem whitelist_restart_regression_witness :
+    chargedFee (run empty [.set (1, 0) 0, .set (1, 0) 5000000]) (1, 0) = some 5000000 ∧
     storedFee (run empty [.set (1, 0) 0, .set (1, 0) 5000000]) (1, 0) = some 5000000 ∧
     chargedFee (run empty [.set (1, 0) 0, .set (1, 0) 5000000, .restart]) (1, 0) = some 5000000 := by decide
 
-/-- (C01, cache_coherent for the whitelisted fees, partial) As long as no `set` aims at a key that is already
-    cached, cache and storage answer every lookup alike after any sequence of set/remove/clean/restart.
-    FULL statement (false, see the witness): without `freshSets`. Missing in the code: setWhitelistFeeContract
-    does not overwrite an existing cache entry (policy.go: `if !ok { Insert }`). -/
-theorem whitelist_cache_coherent_partial (s : State) (ops : List Op) (h : Coherent s) (hf : freshSets s ops = true) :
-    Coherent (run s ops) := run_coherent ops s h hf
+/-- (C01, cache_coherent for the whitelisted fees) After ANY sequence of set/remove/clean/restart the cache and
+    storage answer every lookup alike; hence a restart (cache := storage) changes no charged fee. -/
+theorem whitelist_cache_coherent (s : State) (ops : List Op) (h : Coherent s) : Coherent (run s ops) :=
+  run_coherent ops s h
 
-example : freshSets empty [.set (1, 0) 7, .set (2, 0) 9, .remove (1, 0), .set (1, 0) 8, .clean 2, .restart] = true ∧
-    chargedFee (run empty [.set (1, 0) 7, .set (2, 0) 9, .remove (1, 0), .set (1, 0) 8, .clean 2, .restart]) (1, 0) = some 8 := by decide
+theorem whitelist_restart_invisible (ops : List Op) (k : WKey) :
+    chargedFee (run empty (ops ++ [.restart])) k = chargedFee (run empty ops) k := by
+  have hr : ∀ (os : List Op) (s : State), run s (os ++ [.restart]) = (step (run s os) .restart).getD (run s os) := by
+    intro os
+    induction os with
+    | nil => intro s; rfl
+    | cons o os ih => intro s; simp only [List.cons_append, run]; exact ih _
+  rw [hr]
+  exact restart_invisible _ (run_coherent ops empty empty_coherent) k
+
+example : chargedFee (run empty [.set (1, 0) 7, .set (2, 0) 9, .remove (1, 0), .set (1, 0) 8, .set (1, 0) 3, .clean 2, .restart]) (1, 0) = some 3 ∧
+    chargedFee (run empty [.set (1, 0) 7, .set (2, 0) 9, .clean 2]) (2, 0) = none := by decide
 
 end Whitelist
 
